@@ -187,6 +187,9 @@ def run(ctx):
     from .c05 import rule_activation_balance
     rule_activation_balance(ctx, idx, mir, rid="R07.9")
 
+    # ------------------------------------------------------------------ R07.10 (generic, scoped to this property's anchors)
+    sm.rule_named_plumbing(ctx, mir, "C07", "R07.10", floor=87)
+
     ctx.not_decided += ["that the composition of arbitrary operation scripts equals the reference edit (run-time)"]
     return ("API-to-mutation mapping read from the expanded syntax tree (28 token methods cross-checked as siblings and against the documented table, "
             "9 Element operations), serialisation order of mutated tokens, transfer of element-level end-tag edits, and the emission gate for removed content.")
